@@ -264,8 +264,13 @@ class Check:
         ev = {'property_id': self.pid, 'tier': self.tier, 'seed': self.seed, 'level': self.level,
               'coverage': cov, 'assumptions': self.assumptions, 'wall_s': round(wall, 1),
               'violations': len(self.violations)}
+        # one line per listed finding (with the cases of this run it accounts for)
+        by_what = {}
         for key, what in self.known:
-            print(f'KNOWN-FINDING: property={self.pid} {what} [{key}]')
+            by_what.setdefault(what, []).append(key)
+        for what, keys in by_what.items():
+            print(f'KNOWN-FINDING: property={self.pid} {what} [{len(keys)} case(s): {", ".join(keys[:12])}{" ..." if len(keys) > 12 else ""}]')
+        ev['known_findings'] = [{'what': w, 'cases': k} for w, k in by_what.items()]
         rc = 0
         if self.violations:
             rdir = os.path.join(WORK, 'replay')
